@@ -512,6 +512,8 @@ def wait_quiescent(d, timeout=30.0):
     import termios
     t_end = time.time() + timeout
     hits = 0
+    rhits = 0
+    d.blocked_in_read = False
     while time.time() < t_end:
         r, _, _ = select.select([d.ofd], [], [], 0.01)
         if r:
@@ -542,6 +544,18 @@ def wait_quiescent(d, timeout=30.0):
                 return True
         else:
             hits = 0
+        # asleep INSIDE read(0, ...) with nothing left to read: the daemon will not do anything more until new input arrives (a daemon
+        # that reads only when told its input is readable is never seen there).  200 samples in a row (2 s) make it a state, not a moment.
+        try:
+            if n[0] == 0 and st == "S" and sc and sc[0] in ("0", "19") and int(sc[1], 16) == 0:   # read / readv on descriptor 0
+                rhits += 1
+                if rhits >= 200:
+                    d.blocked_in_read = True
+                    return False
+            else:
+                rhits = 0
+        except (ValueError, IndexError, NameError):
+            rhits = 0
     return False
 
 
